@@ -42,6 +42,7 @@ func checkC10(c *Ctx) {
 		c10Locks(c, a)
 		c10Confinement(c, a)
 		c11Wait(c, a)
+		c11Cancel(c, a)
 	}
 }
 
